@@ -4,8 +4,13 @@ Helper lemmas for C01: the printer/parser argument for the `.bib` reader.
 Stage 1: character classes and scanner primitives (`eatWs`, `Pat.matchAt`, `getToken`,
 `required`, `skipToChar`).  Stage 2: values.  Stage 3: fields, entries, `@string`, `@preamble`,
 `@comment`.  Stage 4: whole documents.
-Line numbers are not part of C01 (no error is reported on a well-formed document), so the
+Line numbers are not part of C01 (no located error is reported on a well-formed document), so the
 lemmas quantify the resulting `ln` existentially.
+
+The per-command lemmas are stated for `cmdOkD` (`cmdOk` without "the key / the field name is new");
+stage 4 (`parseLoop_docD`) is about documents that may repeat keys and field names (`WFD`,
+`denoteD`, `reports`) followed by arbitrary text; the `WF` statements are corollaries
+(`WF_spec`, `parseBib_faithful`).
 -/
 import PybtexModel.Spec.Bib
 import PybtexModel.Lemmas.Basic
@@ -760,10 +765,10 @@ def Trail (t : Str) : Prop := t = [] ∨ ∃ wt, t = ',' :: wt ∧ AllWs wt
 
 /-- after one field has been read and stored: the comma test and the rest of the loop -/
 theorem parseEntryFields_fields (m : Macros) :
-    ∀ (fs : List (Str × Value)) (f : Str × Value) (ls : List FieldLayout) (seen : List Str) (fuel : Nat) (s : St)
+    ∀ (fs : List (Str × Value)) (f : Str × Value) (ls : List FieldLayout) (fuel : Nat) (s : St)
       (trail : Str) (cl : Char) (r : Str),
       s.rest = renderField f (ls.headD {}) ++ (renderFields fs ls.tail ++ (trail ++ cl :: r)) →
-      fieldsOk m seen (f :: fs) ls = true → MacRef s.macros m → Trail trail → ClChar cl →
+      fieldsOkD m (f :: fs) ls = true → MacRef s.macros m → Trail trail → ClChar cl →
       fs.length + 2 ≤ fuel →
       ∃ ln' fn cv, parseEntryFields fuel s = .ok ()
         { s with rest := cl :: r, ln := ln', curFields := s.curFields ++ parsedFields m (f :: fs) ls,
@@ -771,10 +776,10 @@ theorem parseEntryFields_fields (m : Macros) :
   intro fs
   induction fs with
   | nil =>
-    intro f ls seen fuel s trail cl r h hok hm htr hcl hfuel
+    intro f ls fuel s trail cl r h hok hm htr hcl hfuel
     obtain ⟨fuel, rfl⟩ : ∃ k, fuel = k + 2 := ⟨fuel - 2, by simp at hfuel; omega⟩
-    simp only [fieldsOk, Bool.and_eq_true] at hok
-    obtain ⟨⟨⟨⟨⟨⟨⟨⟨hn, _⟩, hv⟩, hw1⟩, hw2⟩, hw3⟩, hw4⟩, _⟩, _⟩ := hok
+    simp only [fieldsOkD, Bool.and_eq_true] at hok
+    obtain ⟨⟨⟨⟨⟨⟨⟨hn, hv⟩, hw1⟩, hw2⟩, hw3⟩, hw4⟩, _⟩, _⟩ := hok
     simp only [renderFields, List.nil_append] at h
     have hn' : applyMask f.1 (ls.headD {}).mask ≠ [] := isName_ne_nil (by rw [isName_applyMask]; exact hn)
     have hv' := expandPieces_ne_nil m hv
@@ -806,11 +811,11 @@ theorem parseEntryFields_fields (m : Macros) :
       simp only [hn', hv', ne_eq, not_false_eq_true, and_self, if_true, h2, h3, parsedFields, writtenFields,
         List.map_cons, List.map_nil]
   | cons f' fs ih =>
-    intro f ls seen fuel s trail cl r h hok hm htr hcl hfuel
+    intro f ls fuel s trail cl r h hok hm htr hcl hfuel
     obtain ⟨fuel, rfl⟩ : ∃ k, fuel = k + 1 := ⟨fuel - 1, by simp at hfuel; omega⟩
-    rw [fieldsOk] at hok
+    rw [fieldsOkD] at hok
     simp only [Bool.and_eq_true] at hok
-    obtain ⟨⟨⟨⟨⟨⟨⟨⟨hn, _⟩, hv⟩, hw1⟩, hw2⟩, hw3⟩, hw4⟩, _⟩, hrest⟩ := hok
+    obtain ⟨⟨⟨⟨⟨⟨⟨hn, hv⟩, hw1⟩, hw2⟩, hw3⟩, hw4⟩, _⟩, hrest⟩ := hok
     simp only [renderFields, List.cons_append, List.append_assoc] at h
     have hn' : applyMask f.1 (ls.headD {}).mask ≠ [] := isName_ne_nil (by rw [isName_applyMask]; exact hn)
     have hv' := expandPieces_ne_nil m hv
@@ -821,7 +826,7 @@ theorem parseEntryFields_fields (m : Macros) :
       { s with rest := ',' :: T, ln := ln1, curFields := s.curFields ++ [(applyMask f.1 (ls.headD {}).mask, expandPieces m f.2)],
                curFieldName := some (applyMask f.1 (ls.headD {}).mask), curValue := expandPieces m f.2 }
       ',' (w := []) rfl AllWs.nil sep_not_ws.1
-    obtain ⟨ln3, fn, cv, h3⟩ := ih f' ls.tail _ fuel
+    obtain ⟨ln3, fn, cv, h3⟩ := ih f' ls.tail fuel
       { s with rest := T, ln := ln1 + countNl [], curFields := s.curFields ++ [(applyMask f.1 (ls.headD {}).mask, expandPieces m f.2)],
                curFieldName := some (applyMask f.1 (ls.headD {}).mask), curValue := expandPieces m f.2 }
       trail cl r hT.symm hrest hm htr hcl (by simp at hfuel ⊢; omega)
@@ -855,8 +860,8 @@ theorem length_le_renderFields (fs : List (Str × Value)) (ls : List FieldLayout
 theorem parseEntryFields_top (m : Macros) (fs : List (Str × Value)) (ls : List FieldLayout) (fuel : Nat) (s : St)
     (w trail : Str) (cl : Char) (r : Str)
     (h : s.rest = w ++ (renderFields fs ls ++ (trail ++ cl :: r))) (hw : AllWs w)
-    (hok : fieldsOk m [] fs ls = true) (hm : MacRef s.macros m) (htr : Trail trail)
-    (hne : fs = [] → trail ≠ []) (hcl : ClChar cl) (hfuel : fs.length + 2 ≤ fuel) :
+    (hok : fieldsOkD m fs ls = true) (hm : MacRef s.macros m) (htr : Trail trail)
+    (hcl : ClChar cl) (hfuel : fs.length + 2 ≤ fuel) :
     ∃ ln' fn cv, parseEntryFields fuel s = .ok ()
       { s with rest := cl :: r, ln := ln', curFields := s.curFields ++ parsedFields m fs ls,
                curFieldName := fn, curValue := cv } := by
@@ -864,7 +869,12 @@ theorem parseEntryFields_top (m : Macros) (fs : List (Str × Value)) (ls : List 
   cases fs with
   | nil =>
     rcases htr with rfl | ⟨wt, rfl, hwt⟩
-    · exact absurd rfl (hne rfl)
+    · -- `@a{k}`: no field and no comma, the loop ends at once
+      simp only [renderFields, List.nil_append] at h
+      obtain ⟨ln1, h1⟩ := parseEntryFields_end fuel s w cl r h hw hcl
+      refine ⟨ln1, none, [], ?_⟩
+      rw [h1]
+      simp [parsedFields, writtenFields]
     · simp only [renderFields, List.nil_append, List.cons_append] at h
       obtain ⟨ln1, h1⟩ := parseEntryFields_skip_comma fuel s w _ h hw
       obtain ⟨fuel, rfl⟩ : ∃ k, fuel = k + 1 := ⟨fuel - 1, by simp at hfuel; omega⟩
@@ -876,7 +886,7 @@ theorem parseEntryFields_top (m : Macros) (fs : List (Str × Value)) (ls : List 
   | cons f fs =>
     simp only [renderFields, List.cons_append, List.append_assoc] at h
     obtain ⟨ln1, h1⟩ := parseEntryFields_skip_comma fuel s w _ h hw
-    obtain ⟨ln2, fn, cv, h2⟩ := parseEntryFields_fields m fs f ls [] fuel
+    obtain ⟨ln2, fn, cv, h2⟩ := parseEntryFields_fields m fs f ls fuel
       { s with rest := renderField f (ls.headD {}) ++ (renderFields fs ls.tail ++ (trail ++ cl :: r)), ln := ln1,
                curFieldName := none, curValue := [] }
       trail cl r rfl hok hm htr hcl (by simp at hfuel; omega)
@@ -892,27 +902,33 @@ theorem keyChar_comma (paren : Bool) : keyChar paren ',' = false := by
 
 /-- the text after the key: the comma-prefixed fields and the optional trailing comma -/
 def entryTail (fs : List (Str × Value)) (l : CmdLayout) : Str :=
-  renderFields fs l.fields ++ (if l.trailing || fs.isEmpty then ',' :: l.afterTrailing else [])
+  renderFields fs l.fields ++ (if l.trailing then ',' :: l.afterTrailing else [])
 
 theorem parseEntryBody_entry (m : Macros) (paren : Bool) (key : Str) (fs : List (Str × Value)) (ls : List FieldLayout)
     (s : St) (w1 w2 trail r : Str)
     (h : s.rest = w1 ++ (key ++ (w2 ++ (renderFields fs ls ++ (trail ++ closer paren :: r)))))
     (hw1 : AllWs w1) (hk : keyOk paren key = true) (hw2 : AllWs w2)
-    (hok : fieldsOk m [] fs ls = true) (hm : MacRef s.macros m) (htr : Trail trail)
-    (hne : fs = [] → trail ≠ []) (hwant : s.db.wanted = none) :
+    (hok : fieldsOkD m fs ls = true) (hm : MacRef s.macros m) (htr : Trail trail)
+    (hne : fs = [] → trail = [] → paren = false ∨ w2 ≠ []) (hwant : s.db.wanted = none) :
     ∃ ln' fn cv, parseEntryBody paren s = .ok ()
       { s with rest := closer paren :: r, ln := ln', curKey := some key,
                curFields := s.curFields ++ parsedFields m fs ls, curFieldName := fn, curValue := cv } := by
-  -- what follows the key starts with white space or a comma
-  obtain ⟨X, hX⟩ : ∃ X, renderFields fs ls ++ (trail ++ closer paren :: r) = ',' :: X := by
+  -- what follows the key starts with white space, a comma, or (field-less entry without comma,
+  -- in braces) the closing brace
+  have hstop : Stops (keyChar paren) (w2 ++ (renderFields fs ls ++ (trail ++ closer paren :: r))) := by
+    have hcomma : ∀ X, Stops (keyChar paren) (w2 ++ ',' :: X) := fun X =>
+      stops_ws_append hw2 (fun _ => keyChar_ws) (stops_cons.2 (keyChar_comma paren))
     cases fs with
     | nil =>
       rcases htr with rfl | ⟨wt, rfl, _⟩
-      · exact absurd rfl (hne rfl)
-      · exact ⟨_, rfl⟩
-    | cons f fs => exact ⟨_, rfl⟩
-  have hstop : Stops (keyChar paren) (w2 ++ (renderFields fs ls ++ (trail ++ closer paren :: r))) := by
-    rw [hX]; exact stops_ws_append hw2 (fun _ => keyChar_ws) (stops_cons.2 (keyChar_comma paren))
+      · rcases hne rfl rfl with hp | hw
+        · subst hp
+          exact stops_ws_append hw2 (fun _ => keyChar_ws) (stops_cons.2 (by decide))
+        · cases w2 with
+          | nil => exact absurd rfl hw
+          | cons a w => exact stops_cons.2 (keyChar_ws (hw2 a (by simp)))
+      · exact hcomma _
+    | cons f fs => exact hcomma _
   have hkne : key ≠ [] := by
     simp only [keyOk, Bool.and_eq_true, decide_eq_true_eq] at hk; exact hk.1
   obtain ⟨k0, kt, rfl⟩ : ∃ k0 kt, key = k0 :: kt := by
@@ -927,7 +943,7 @@ theorem parseEntryBody_entry (m : Macros) (paren : Bool) (key : Str) (fs : List 
     (by simp only [firstMatch]; rw [matchAt_key hk hstop])
   obtain ⟨ln2, fn, cv, h2⟩ := parseEntryFields_top m fs ls ((w2 ++ (renderFields fs ls ++ (trail ++ closer paren :: r))).length + 2)
     { s with rest := w2 ++ (renderFields fs ls ++ (trail ++ closer paren :: r)), ln := s.ln + countNl w1, curKey := some (k0 :: kt) }
-    w2 trail (closer paren) r rfl hw2 hok hm htr hne (ClChar.closer paren)
+    w2 trail (closer paren) r rfl hw2 hok hm htr (ClChar.closer paren)
     (by have := length_le_renderFields fs ls; simp only [List.length_append]; omega)
   refine ⟨ln2, fn, cv, ?_⟩
   unfold parseEntryBody
@@ -1013,27 +1029,75 @@ theorem parseCommand_string_of (s s1 s2 s3 s4 : St) (command v : Str) (paren : B
 
 theorem closer_not_ws (paren : Bool) : isWs (closer paren) = false := (EndChar.closer paren).notWs
 
+/-! `WF` implies `WFD` (the two dropped conditions are not needed for reading a command back) -/
+
+theorem fieldsOkD_of_fieldsOk (m : Macros) (fs : List (Str × Value)) :
+    ∀ (ls : List FieldLayout) (seen : List Str), fieldsOk m seen fs ls = true → fieldsOkD m fs ls = true := by
+  induction fs with
+  | nil => intro _ _ _; rfl
+  | cons f fs ih =>
+    intro ls seen h
+    rw [fieldsOk] at h
+    simp only [Bool.and_eq_true] at h
+    obtain ⟨⟨⟨⟨⟨⟨⟨⟨hn, _⟩, hv⟩, hw1⟩, hw2⟩, hw3⟩, hw4⟩, hp⟩, hrest⟩ := h
+    rw [fieldsOkD]
+    simp only [Bool.and_eq_true]
+    exact ⟨⟨⟨⟨⟨⟨⟨hn, hv⟩, hw1⟩, hw2⟩, hw3⟩, hw4⟩, hp⟩, ih _ _ hrest⟩
+
+theorem cmdOkD_of_cmdOk {m : Macros} {keys : List Str} {c : ACmd} {l : CmdLayout}
+    (h : cmdOk m keys c l = true) : cmdOkD m c l = true := by
+  cases c with
+  | entry ty key fs =>
+    simp only [cmdOk, Bool.and_eq_true] at h
+    obtain ⟨⟨⟨⟨⟨⟨⟨⟨⟨⟨⟨hty, hres⟩, hkey⟩, _⟩, hfs⟩, hw1⟩, hw2⟩, hw3⟩, hw4⟩, hw5⟩, hw6⟩, hb⟩ := h
+    simp only [cmdOkD, Bool.and_eq_true]
+    exact ⟨⟨⟨⟨⟨⟨⟨⟨⟨⟨hty, hres⟩, hkey⟩, fieldsOkD_of_fieldsOk m fs _ _ hfs⟩, hw1⟩, hw2⟩, hw3⟩, hw4⟩, hw5⟩, hw6⟩, hb⟩
+  | strdef n v => exact h
+  | preamble v => exact h
+  | comment t => exact h
+  | junk t => exact h
+
+theorem wfFromD_of_wfFrom (d : ADoc) : ∀ (L : Layout) (m : Macros) (keys : List Str),
+    wfFrom m keys d L = true → wfFromD m d L = true := by
+  induction d with
+  | nil => intro _ _ _ _; rfl
+  | cons c cs ih =>
+    intro L m keys h
+    rw [wfFrom] at h
+    simp only [Bool.and_eq_true] at h
+    rw [wfFromD]
+    simp only [Bool.and_eq_true]
+    exact ⟨cmdOkD_of_cmdOk h.1, ih _ _ _ h.2⟩
+
 /-- Stage 3: a rendered entry is read back as `Cmd.entry` with the type and field names as
 written, the key, and the expanded pieces of every field; exactly the text up to and including
-the closing delimiter is consumed; nothing is reported. -/
-theorem parseCommand_entry (m : Macros) (keys : List Str) (ty key : Str) (fs : List (Str × Value)) (l : CmdLayout)
+the closing delimiter is consumed; nothing is reported.  (Field names and the key may repeat
+earlier ones: that is the business of the processing step.) -/
+theorem parseCommand_entryD (m : Macros) (ty key : Str) (fs : List (Str × Value)) (l : CmdLayout)
     (s : St) (r : Str)
     (h : '@' :: s.rest = renderCmd (.entry ty key fs) l ++ r)
-    (hok : cmdOk m keys (.entry ty key fs) l = true) (hm : MacRef s.macros m) (hwant : s.db.wanted = none) :
+    (hok : cmdOkD m (.entry ty key fs) l = true) (hm : MacRef s.macros m) (hwant : s.db.wanted = none) :
     ∃ ln' fn cv, parseCommand s =
       .ok (Cmd.entry (applyMask ty l.mask) (some key) (parsedFields m fs l.fields))
         { s with rest := l.afterClose ++ r, ln := ln', curKey := some key,
                  curFields := parsedFields m fs l.fields, curFieldName := fn, curValue := cv } := by
-  simp only [cmdOk, Bool.and_eq_true] at hok
-  obtain ⟨⟨⟨⟨⟨⟨⟨⟨⟨⟨hty, hres⟩, hkey⟩, _⟩, hfs⟩, hw1⟩, hw2⟩, hw3⟩, hw4⟩, hw5⟩, hw6⟩ := hok
+  simp only [cmdOkD, Bool.and_eq_true] at hok
+  obtain ⟨⟨⟨⟨⟨⟨⟨⟨⟨⟨hty, hres⟩, hkey⟩, hfs⟩, hw1⟩, hw2⟩, hw3⟩, hw4⟩, hw5⟩, hw6⟩, hbare⟩ := hok
   simp only [renderCmd, List.cons_append, List.append_assoc, List.cons.injEq, true_and] at h
-  generalize htrail : (if (l.trailing || fs.isEmpty) = true then ',' :: l.afterTrailing else []) = trail at h
+  generalize htrail : (if l.trailing = true then ',' :: l.afterTrailing else []) = trail at h
   have htr : Trail trail := by
     rw [← htrail]; split
     · exact Or.inr ⟨_, rfl, allWs_of_wsOk hw5⟩
     · exact Or.inl rfl
-  have hne : fs = [] → trail ≠ [] := by
-    rintro rfl; rw [← htrail]; simp
+  have hne : fs = [] → trail = [] → l.paren = false ∨ l.afterKey ≠ [] := by
+    rintro rfl ht
+    have htf : l.trailing = false := by
+      cases hlt : l.trailing with
+      | false => rfl
+      | true => rw [← htrail, hlt] at ht; simp at ht
+    simp only [bareKeyOk, htf, List.isEmpty_nil, Bool.not_true, Bool.or_false, Bool.or_eq_true,
+      Bool.not_eq_true', decide_eq_true_eq] at hbare
+    exact hbare
   have hlow : lower (applyMask ty l.mask) = lower ty := lower_applyMask _ _
   simp only [reserved, List.contains_cons, List.contains_nil, Bool.or_false, Bool.not_eq_true',
     Bool.or_eq_false_iff, beq_eq_false_iff_ne, ne_eq] at hres
@@ -1050,6 +1114,16 @@ theorem parseCommand_entry (m : Macros) (keys : List Str) (ty key : Str) (fs : L
   rw [parseCommand_entry_of s _ _ _ _ _ _ l.paren _ h1 h2 (by rw [hlow]; exact hres.2.2)
     (by rw [hlow]; exact hres.1) (by rw [hlow]; exact hres.2.1) h3 h4]
   simp [St.fresh]
+
+theorem parseCommand_entry (m : Macros) (keys : List Str) (ty key : Str) (fs : List (Str × Value)) (l : CmdLayout)
+    (s : St) (r : Str)
+    (h : '@' :: s.rest = renderCmd (.entry ty key fs) l ++ r)
+    (hok : cmdOk m keys (.entry ty key fs) l = true) (hm : MacRef s.macros m) (hwant : s.db.wanted = none) :
+    ∃ ln' fn cv, parseCommand s =
+      .ok (Cmd.entry (applyMask ty l.mask) (some key) (parsedFields m fs l.fields))
+        { s with rest := l.afterClose ++ r, ln := ln', curKey := some key,
+                 curFields := parsedFields m fs l.fields, curFieldName := fn, curValue := cv } :=
+  parseCommand_entryD m ty key fs l s r h (cmdOkD_of_cmdOk hok) hm hwant
 
 
 theorem omap_get_set {V : Type} (m : OMap V) (n k : Str) (v : V) :
@@ -1101,14 +1175,14 @@ theorem parseStringBody_strdef (m : Macros) (n : Str) (v : Value) (mask : CaseMa
   simp only [parseStringBody, h1, h2, h3, expand]
 
 /-- Stage 3: a rendered `@string` defines the macro under the written name. -/
-theorem parseCommand_strdef (m : Macros) (keys : List Str) (n : Str) (v : Value) (l : CmdLayout) (s : St) (r : Str)
+theorem parseCommand_strdefD (m : Macros) (n : Str) (v : Value) (l : CmdLayout) (s : St) (r : Str)
     (h : '@' :: s.rest = renderCmd (.strdef n v) l ++ r)
-    (hok : cmdOk m keys (.strdef n v) l = true) (hm : MacRef s.macros m) :
+    (hok : cmdOkD m (.strdef n v) l = true) (hm : MacRef s.macros m) :
     ∃ ln', parseCommand s = .ok Cmd.string
         { s with rest := l.afterClose ++ r, ln := ln', curKey := none, curFields := [],
                  curFieldName := some (applyMask n l.nameMask), curValue := expandPieces m v,
                  macros := s.macros.setItem (applyMask n l.nameMask) (expand m v) } := by
-  simp only [cmdOk, Bool.and_eq_true] at hok
+  simp only [cmdOkD, Bool.and_eq_true] at hok
   obtain ⟨⟨⟨⟨⟨⟨⟨⟨hn, hv⟩, hw1⟩, hw2⟩, hw3⟩, hw4⟩, hw5⟩, hw6⟩, hw7⟩ := hok
   simp only [renderCmd, List.cons_append, List.append_assoc, List.cons.injEq, true_and] at h
   obtain ⟨ln2, h1, h2⟩ := command_head s l.afterAt (kw "string" l.mask) l.beforeOpen l.paren _ h
@@ -1126,14 +1200,23 @@ theorem parseCommand_strdef (m : Macros) (keys : List Str) (n : Str) (v : Value)
   rw [parseCommand_string_of s _ _ _ _ _ _ l.paren _ h1 h2 (by rw [kw, lower_applyMask]; decide) h3 h4]
   simp [St.fresh]
 
+theorem parseCommand_strdef (m : Macros) (keys : List Str) (n : Str) (v : Value) (l : CmdLayout) (s : St) (r : Str)
+    (h : '@' :: s.rest = renderCmd (.strdef n v) l ++ r)
+    (hok : cmdOk m keys (.strdef n v) l = true) (hm : MacRef s.macros m) :
+    ∃ ln', parseCommand s = .ok Cmd.string
+        { s with rest := l.afterClose ++ r, ln := ln', curKey := none, curFields := [],
+                 curFieldName := some (applyMask n l.nameMask), curValue := expandPieces m v,
+                 macros := s.macros.setItem (applyMask n l.nameMask) (expand m v) } :=
+  parseCommand_strdefD m n v l s r h (cmdOkD_of_cmdOk hok) hm
+
 /-- Stage 3: a rendered `@preamble` yields the expanded pieces of its value. -/
-theorem parseCommand_preamble (m : Macros) (keys : List Str) (v : Value) (l : CmdLayout) (s : St) (r : Str)
+theorem parseCommand_preambleD (m : Macros) (v : Value) (l : CmdLayout) (s : St) (r : Str)
     (h : '@' :: s.rest = renderCmd (.preamble v) l ++ r)
-    (hok : cmdOk m keys (.preamble v) l = true) (hm : MacRef s.macros m) :
+    (hok : cmdOkD m (.preamble v) l = true) (hm : MacRef s.macros m) :
     ∃ ln', parseCommand s = .ok (Cmd.preamble (expandPieces m v))
         { s with rest := l.afterClose ++ r, ln := ln', curKey := none, curFields := [],
                  curFieldName := none, curValue := expandPieces m v } := by
-  simp only [cmdOk, Bool.and_eq_true] at hok
+  simp only [cmdOkD, Bool.and_eq_true] at hok
   obtain ⟨⟨⟨⟨⟨hv, hw1⟩, hw2⟩, hw3⟩, hw4⟩, hw5⟩ := hok
   simp only [renderCmd, List.cons_append, List.append_assoc, List.cons.injEq, true_and] at h
   obtain ⟨ln2, h1, h2⟩ := command_head s l.afterAt (kw "preamble" l.mask) l.beforeOpen l.paren _ h
@@ -1150,15 +1233,23 @@ theorem parseCommand_preamble (m : Macros) (keys : List Str) (v : Value) (l : Cm
   rw [parseCommand_preamble_of s _ _ _ _ _ _ l.paren _ h1 h2 (by rw [kw, lower_applyMask]; decide) h3 h4]
   simp [St.fresh]
 
+theorem parseCommand_preamble (m : Macros) (keys : List Str) (v : Value) (l : CmdLayout) (s : St) (r : Str)
+    (h : '@' :: s.rest = renderCmd (.preamble v) l ++ r)
+    (hok : cmdOk m keys (.preamble v) l = true) (hm : MacRef s.macros m) :
+    ∃ ln', parseCommand s = .ok (Cmd.preamble (expandPieces m v))
+        { s with rest := l.afterClose ++ r, ln := ln', curKey := none, curFields := [],
+                 curFieldName := none, curValue := expandPieces m v } :=
+  parseCommand_preambleD m v l s r h (cmdOkD_of_cmdOk hok) hm
+
 /-- Stage 3: a rendered `@comment` is skipped right behind its opening delimiter (the text and
 the closing delimiter are then passed over as junk by the command loop). -/
-theorem parseCommand_comment_cmd (m : Macros) (keys : List Str) (txt : Str) (l : CmdLayout) (s : St) (r : Str)
+theorem parseCommand_comment_cmdD (m : Macros) (txt : Str) (l : CmdLayout) (s : St) (r : Str)
     (h : '@' :: s.rest = renderCmd (.comment txt) l ++ r)
-    (hok : cmdOk m keys (.comment txt) l = true) :
+    (hok : cmdOkD m (.comment txt) l = true) :
     ∃ ln', parseCommand s = .fail .skip
         { s with rest := txt ++ closer l.paren :: (l.afterClose ++ r), ln := ln', curKey := none, curFields := [],
                  curFieldName := none, curValue := [] } := by
-  simp only [cmdOk, Bool.and_eq_true] at hok
+  simp only [cmdOkD, Bool.and_eq_true] at hok
   obtain ⟨⟨⟨_, hw1⟩, hw2⟩, _⟩ := hok
   simp only [renderCmd, List.cons_append, List.append_assoc, List.cons.injEq, true_and] at h
   obtain ⟨ln2, h1, h2⟩ := command_head s l.afterAt (kw "comment" l.mask) l.beforeOpen l.paren _ h
@@ -1166,6 +1257,14 @@ theorem parseCommand_comment_cmd (m : Macros) (keys : List Str) (txt : Str) (l :
   refine ⟨ln2, ?_⟩
   rw [parseCommand_comment s _ _ _ _ _ h1 h2 (by rw [kw, lower_applyMask]; decide)]
   simp [St.fresh]
+
+theorem parseCommand_comment_cmd (m : Macros) (keys : List Str) (txt : Str) (l : CmdLayout) (s : St) (r : Str)
+    (h : '@' :: s.rest = renderCmd (.comment txt) l ++ r)
+    (hok : cmdOk m keys (.comment txt) l = true) :
+    ∃ ln', parseCommand s = .fail .skip
+        { s with rest := txt ++ closer l.paren :: (l.afterClose ++ r), ln := ln', curKey := none, curFields := [],
+                 curFieldName := none, curValue := [] } :=
+  parseCommand_comment_cmdD m txt l s r h (cmdOkD_of_cmdOk hok)
 
 
 /-! ## Stage 4: whole documents -/
@@ -1194,7 +1293,7 @@ structure LoopInv (s : St) (m : Macros) (D : Denot) (keys : List Str) : Prop whe
   entries : s.db.entries = D.entries
   preamble : s.db.preamble = D.preamble
   errs : s.errs = []
-  keys : ∀ e ∈ D.entries, lower e.key ∈ keys
+  keys : ∀ e ∈ D.entries, keyFold e.key ∈ keys
 
 theorem AtFree.skip {pre : Str} (h : ∀ c ∈ pre, c ≠ '@') : ∀ x ∈ pre, (decide (x = '@')) = false := by
   intro x hx; simpa using h x hx
@@ -1249,134 +1348,315 @@ theorem renderCmd_length_pos {c : ACmd} (l : CmdLayout) (h : ∀ txt, c ≠ .jun
 
 theorem closer_ne_at (paren : Bool) : closer paren ≠ '@' := by cases paren <;> decide
 
-/-- Stage 4: the command loop on a rendered well-formed document computes the denotation. -/
-theorem parseLoop_doc :
-    ∀ (cs : ADoc) (ls : Layout) (fuel : Nat) (s : St) (pre : Str) (m : Macros) (D : Denot) (keys : List Str),
-      s.rest = pre ++ render cs ls → (∀ c ∈ pre, c ≠ '@') → wfFrom m keys cs ls = true → LoopInv s m D keys →
-      (render cs ls).length < fuel →
-      ∃ s' m' keys', parseLoop fuel s = (s', none) ∧ LoopInv s' m' (denoteFrom m D (written cs ls)) keys' := by
+theorem procOkD_of_fieldsOkD (m : Macros) (fs : List (Str × Value)) :
+    ∀ (ls : List FieldLayout), fieldsOkD m fs ls = true → procOkD m (writtenFields fs ls) = true := by
+  induction fs with
+  | nil => intro ls _; rfl
+  | cons f fs ih =>
+    intro ls h
+    rw [fieldsOkD] at h
+    simp only [Bool.and_eq_true] at h
+    obtain ⟨⟨_, hpers⟩, hrest⟩ := h
+    simp only [writtenFields, procOkD, isPersonField_applyMask, Bool.and_eq_true]
+    exact ⟨hpers, ih ls.tail hrest⟩
+
+/-- The invariant of the command loop on documents that may repeat field names and keys: the reader
+state implements the spec state (`m` macro table, `D` database so far, `keys` lower-cased keys of
+the entry commands so far: exactly the keys of `D` up to case) and `R` is what was reported. -/
+structure LoopInvD (s : St) (m : Macros) (D : Denot) (keys : List Str) (R : List Err) : Prop where
+  mac : MacRef s.macros m
+  proc : ProcInv s
+  entries : s.db.entries = D.entries
+  preamble : s.db.preamble = D.preamble
+  errs : s.errs = R
+  keys : ∀ k, k ∈ keys ↔ ∃ e ∈ D.entries, keyFold e.key = k
+
+theorem LoopInvD.toLoopInv {s : St} {m : Macros} {D : Denot} {keys : List Str} (h : LoopInvD s m D keys []) :
+    LoopInv s m D keys :=
+  ⟨h.mac, h.proc, h.entries, h.preamble, h.errs, fun e he => (h.keys _).2 ⟨e, he, rfl⟩⟩
+
+theorem LoopInvD.any_eq {s : St} {m : Macros} {D : Denot} {keys : List Str} {R : List Err}
+    (h : LoopInvD s m D keys R) (key : Str) :
+    D.entries.any (fun e => keyFold e.key = keyFold key) = keys.contains (keyFold key) := by
+  rw [Bool.eq_iff_iff]
+  simp only [List.any_eq_true, decide_eq_true_eq, List.contains_eq_mem]
+  exact (h.keys _).symm
+
+/-- the database of the reader state is the spec database (no wanted-set, no citation set) -/
+theorem LoopInvD.db_eq {s : St} {m : Macros} {D : Denot} {keys : List Str} {R : List Err}
+    (h : LoopInvD s m D keys R) : s.db = { entries := D.entries, preamble := D.preamble } := by
+  have h2 := h.entries
+  have h3 := h.preamble
+  have h4 := h.proc.wanted
+  have h5 := h.proc.cit
+  generalize s.db = db at h2 h3 h4 h5
+  cases db
+  simp only at h2 h3 h4 h5
+  simp only [h2, h3, h4, h5]
+
+theorem stepKeys_writtenCmd (keys : List Str) (c : ACmd) (l : CmdLayout) :
+    stepKeys keys (writtenCmd c l) = stepKeys keys c := by
+  cases c <;> rfl
+
+/-- one round of the loop: a command is parsed and processed -/
+theorem parseLoop_round_ok (fuel : Nat) (s : St) (pre T : Str) (h : s.rest = pre ++ '@' :: T)
+    (hpre : ∀ c ∈ pre, c ≠ '@') {c : Cmd} {s1 s2 : St}
+    (h1 : parseCommand { s with rest := T, ln := s.ln + countNl (pre ++ ['@']) } = .ok c s1)
+    (h2 : processCmd c s1 = .ok () s2) : parseLoop (fuel + 1) s = parseLoop fuel s2 := by
+  rw [parseLoop_at fuel s pre T h hpre, h1]
+  simp only [h2]
+
+/-- one round of the loop: the command is skipped (`@comment`) -/
+theorem parseLoop_round_skip (fuel : Nat) (s : St) (pre T : Str) (h : s.rest = pre ++ '@' :: T)
+    (hpre : ∀ c ∈ pre, c ≠ '@') {s1 : St}
+    (h1 : parseCommand { s with rest := T, ln := s.ln + countNl (pre ++ ['@']) } = .fail .skip s1) :
+    parseLoop (fuel + 1) s = parseLoop fuel s1 := by
+  rw [parseLoop_at fuel s pre T h hpre, h1]
+
+/-- Stage 4: the command loop on a rendered document that may repeat field names and keys, followed
+by ARBITRARY text `x`: after `k` rounds (one per command; `k + j` is any amount of fuel) the
+reader stands in front of `x` (behind `@`-free text `pre'`), its database is the denotation of the
+document, and it has reported exactly `reportsFrom`.  Continue mode, or strict mode when the
+document gives nothing to report. -/
+theorem parseLoop_docD :
+    ∀ (cs : ADoc) (ls : Layout) (s : St) (pre x : Str) (m : Macros) (D : Denot) (keys : List Str) (R : List Err),
+      s.rest = pre ++ (render cs ls ++ x) → (∀ c ∈ pre, c ≠ '@') → wfFromD m cs ls = true →
+      LoopInvD s m D keys R → (s.strict = true → reportsFrom keys (written cs ls) = []) →
+      ∃ s' m' keys' pre' k, (∀ j, parseLoop (k + j) s = parseLoop j s') ∧ k ≤ (render cs ls).length ∧
+        s'.rest = pre' ++ x ∧ (∀ c ∈ pre', c ≠ '@') ∧ s'.strict = s.strict ∧
+        LoopInvD s' m' (denoteFromD m D (written cs ls)) keys' (R ++ reportsFrom keys (written cs ls)) := by
   intro cs
   induction cs with
   | nil =>
-    intro ls fuel s pre m D keys h hpre _ hinv hfuel
-    obtain ⟨fuel, rfl⟩ : ∃ k, fuel = k + 1 := ⟨fuel - 1, by omega⟩
-    simp only [render, List.append_nil] at h
-    refine ⟨s, m, keys, ?_, hinv⟩
-    rw [parseLoop_unfold, h, skipToChar_none (AtFree.skip hpre)]
+    intro ls s pre x m D keys R h hpre _ hinv _
+    simp only [render, List.nil_append] at h
+    refine ⟨s, m, keys, pre, 0, fun j => by rw [Nat.zero_add], Nat.le_refl _, h, hpre, rfl, ?_⟩
+    simpa [written, denoteFromD, reportsFrom] using hinv
   | cons c cs ih =>
-    intro ls fuel s pre m D keys h hpre hwf hinv hfuel
-    rw [wfFrom] at hwf
+    intro ls s pre x m D keys R h hpre hwf hinv hstrict
+    rw [wfFromD] at hwf
     simp only [Bool.and_eq_true] at hwf
     obtain ⟨hok, hwf'⟩ := hwf
-    simp only [render] at h hfuel
-    simp only [written, denoteFrom]
+    simp only [render] at h ⊢
+    simp only [written, denoteFromD, reportsFrom, stepKeys_writtenCmd] at hstrict ⊢
+    -- one more round in front of what the rest of the document needs
+    have hround : ∀ (s2 : St) (pre2 : Str) (m2 : Macros) (D2 : Denot) (keys2 : List Str) (R2 R3 : List Err) (n : Nat),
+        (∀ fuel, parseLoop (fuel + 1) s = parseLoop fuel s2) → wfFromD m2 cs ls.tail = true →
+        s2.rest = pre2 ++ (render cs ls.tail ++ x) → (∀ c ∈ pre2, c ≠ '@') → s2.strict = s.strict →
+        LoopInvD s2 m2 D2 keys2 R2 → (s.strict = true → reportsFrom keys2 (written cs ls.tail) = []) →
+        R2 ++ reportsFrom keys2 (written cs ls.tail) = R3 → 0 < n →
+        ∃ s' m' keys' pre' k, (∀ j, parseLoop (k + j) s = parseLoop j s') ∧ k ≤ n + (render cs ls.tail).length ∧
+          s'.rest = pre' ++ x ∧ (∀ c ∈ pre', c ≠ '@') ∧ s'.strict = s.strict ∧
+          LoopInvD s' m' (denoteFromD m2 D2 (written cs ls.tail)) keys' R3 := by
+      intro s2 pre2 m2 D2 keys2 R2 R3 n hstep hwf2 h2 hpre2 hs2 hinv2 hstrict2 hR3 hn
+      obtain ⟨s', m', keys', pre', k, hk, hle, hrest, hpre', hs', hinv'⟩ :=
+        ih ls.tail s2 pre2 x m2 D2 keys2 R2 h2 hpre2 hwf2 hinv2 (by rw [hs2]; exact hstrict2)
+      refine ⟨s', m', keys', pre', k + 1, fun j => ?_, by omega, hrest, hpre', hs'.trans hs2, hR3 ▸ hinv'⟩
+      rw [show k + 1 + j = (k + j) + 1 by omega, hstep]
+      exact hk j
     cases c with
     | junk txt =>
-      simp only [renderCmd] at h hfuel
-      simp only [cmdOk, atFree, List.all_eq_true, decide_eq_true_eq] at hok
-      refine ih ls.tail fuel s (pre ++ txt) m D keys (by rw [h, List.append_assoc]) ?_ hwf' hinv
-        (by simp only [List.length_append] at hfuel; omega)
-      intro x hx
-      rcases List.mem_append.1 hx with hx | hx
-      · exact hpre x hx
-      · exact hok x hx
+      simp only [renderCmd] at h ⊢
+      simp only [cmdOkD, atFree, List.all_eq_true, decide_eq_true_eq] at hok
+      simp only [writtenCmd, stepMacros, stepDenotD, cmdReports, stepKeys, List.nil_append] at hstrict ⊢
+      have hpre2 : ∀ c ∈ pre ++ txt, c ≠ '@' := by
+        intro c hc
+        rcases List.mem_append.1 hc with hc | hc
+        · exact hpre c hc
+        · exact hok c hc
+      obtain ⟨s', m', keys', pre', k, hk, hle, hrest, hpre', hs', hinv'⟩ :=
+        ih ls.tail s (pre ++ txt) x m D keys R (by rw [h]; simp only [List.append_assoc]) hpre2 hwf' hinv hstrict
+      exact ⟨s', m', keys', pre', k, hk, by simp only [List.length_append]; omega, hrest, hpre', hs', hinv'⟩
     | comment txt =>
-      obtain ⟨fuel, rfl⟩ : ∃ k, fuel = k + 1 := ⟨fuel - 1, by omega⟩
-      have hlen := renderCmd_length_pos (c := .comment txt) (ls.headD {}) (by intro t; simp)
       obtain ⟨T, hT⟩ : ∃ T, renderCmd (.comment txt) (ls.headD {}) = '@' :: T := ⟨_, rfl⟩
-      rw [hT, List.cons_append] at h
-      rw [parseLoop_at fuel s pre _ h hpre]
-      obtain ⟨ln1, h1⟩ := parseCommand_comment_cmd m keys txt (ls.headD {})
-        { s with rest := T ++ render cs ls.tail, ln := s.ln + countNl (pre ++ ['@']) } (render cs ls.tail)
+      rw [hT, List.cons_append, List.cons_append] at h
+      simp only [List.append_assoc] at h
+      obtain ⟨ln1, h1⟩ := parseCommand_comment_cmdD m txt (ls.headD {})
+        { s with rest := T ++ (render cs ls.tail ++ x), ln := s.ln + countNl (pre ++ ['@']) } (render cs ls.tail ++ x)
         (by rw [hT]; rfl) hok
-      rw [h1]
       have hok' := hok
-      simp only [cmdOk, Bool.and_eq_true, atFree, List.all_eq_true, decide_eq_true_eq] at hok'
+      simp only [cmdOkD, Bool.and_eq_true, atFree, List.all_eq_true, decide_eq_true_eq] at hok'
       obtain ⟨⟨⟨htxt, _⟩, _⟩, hwc⟩ := hok'
-      refine ih ls.tail fuel _ (txt ++ closer (ls.headD {}).paren :: (ls.headD {}).afterClose) m D keys
-        (by simp) ?_ hwf' ⟨hinv.mac, ⟨hinv.proc.wanted, hinv.proc.cit, hinv.proc.roles⟩, hinv.entries, hinv.preamble, hinv.errs, hinv.keys⟩
-        (by simp only [List.length_append] at hfuel; omega)
-      intro x hx
-      rcases List.mem_append.1 hx with hx | hx
-      · exact htxt x hx
-      · rcases List.mem_cons.1 hx with rfl | hx
-        · exact closer_ne_at _
-        · exact allWs_atFree (allWs_of_wsOk hwc) x hx
+      simp only [writtenCmd, stepMacros, stepDenotD, cmdReports, stepKeys, List.nil_append] at hstrict ⊢
+      have hpre2 : ∀ c ∈ txt ++ closer (ls.headD {}).paren :: (ls.headD {}).afterClose, c ≠ '@' := by
+        intro c hc
+        rcases List.mem_append.1 hc with hc | hc
+        · exact htxt c hc
+        · rcases List.mem_cons.1 hc with rfl | hc
+          · exact closer_ne_at _
+          · exact allWs_atFree (allWs_of_wsOk hwc) c hc
+      obtain ⟨s', m', keys', pre', k, hk, hle, hrest, hpre', hs', hinv'⟩ :=
+        hround _ (txt ++ closer (ls.headD {}).paren :: (ls.headD {}).afterClose) m D keys R _ 1
+          (fun fuel => parseLoop_round_skip fuel s pre _ h hpre h1) hwf'
+          (by simp) hpre2 rfl
+          ⟨hinv.mac, ⟨hinv.proc.wanted, hinv.proc.cit, hinv.proc.roles⟩, hinv.entries, hinv.preamble, hinv.errs, hinv.keys⟩
+          hstrict rfl (by omega)
+      exact ⟨s', m', keys', pre', k, hk, by rw [hT]; simp only [List.length_append, List.length_cons]; omega,
+        hrest, hpre', hs', hinv'⟩
     | preamble v =>
-      obtain ⟨fuel, rfl⟩ : ∃ k, fuel = k + 1 := ⟨fuel - 1, by omega⟩
-      have hlen := renderCmd_length_pos (c := .preamble v) (ls.headD {}) (by intro t; simp)
       obtain ⟨T, hT⟩ : ∃ T, renderCmd (.preamble v) (ls.headD {}) = '@' :: T := ⟨_, rfl⟩
-      rw [hT, List.cons_append] at h
-      rw [parseLoop_at fuel s pre _ h hpre]
-      obtain ⟨ln1, h1⟩ := parseCommand_preamble m keys v (ls.headD {})
-        { s with rest := T ++ render cs ls.tail, ln := s.ln + countNl (pre ++ ['@']) } (render cs ls.tail)
+      rw [hT, List.cons_append, List.cons_append] at h
+      simp only [List.append_assoc] at h
+      obtain ⟨ln1, h1⟩ := parseCommand_preambleD m v (ls.headD {})
+        { s with rest := T ++ (render cs ls.tail ++ x), ln := s.ln + countNl (pre ++ ['@']) } (render cs ls.tail ++ x)
         (by rw [hT]; rfl) hok hinv.mac
-      rw [h1]
-      simp only [processCmd_preamble]
       have hwc : wsOk (ls.headD {}).afterClose = true := by
-        simp only [cmdOk, Bool.and_eq_true] at hok; exact hok.2
-      refine ih ls.tail fuel _ (ls.headD {}).afterClose m _ keys rfl (allWs_atFree (allWs_of_wsOk hwc)) hwf'
-        ⟨hinv.mac, ⟨hinv.proc.wanted, hinv.proc.cit, hinv.proc.roles⟩, hinv.entries, ?_, hinv.errs, hinv.keys⟩
-        (by simp only [List.length_append] at hfuel; omega)
-      simp only [writtenCmd, stepDenot, hinv.preamble]
+        simp only [cmdOkD, Bool.and_eq_true] at hok; exact hok.2
+      simp only [writtenCmd, stepMacros, stepDenotD, cmdReports, stepKeys, List.nil_append] at hstrict ⊢
+      obtain ⟨s', m', keys', pre', k, hk, hle, hrest, hpre', hs', hinv'⟩ :=
+        hround _ (ls.headD {}).afterClose m { D with preamble := D.preamble ++ [normalizeWs (expand m v)] } keys R _ 1
+          (fun fuel => parseLoop_round_ok fuel s pre _ h hpre h1 (processCmd_preamble m v _)) hwf'
+          rfl (allWs_atFree (allWs_of_wsOk hwc)) rfl
+          ⟨hinv.mac, ⟨hinv.proc.wanted, hinv.proc.cit, hinv.proc.roles⟩, hinv.entries,
+            congrArg (· ++ [normalizeWs (expand m v)]) hinv.preamble,
+            hinv.errs, hinv.keys⟩
+          hstrict rfl (by omega)
+      exact ⟨s', m', keys', pre', k, hk, by rw [hT]; simp only [List.length_append, List.length_cons]; omega,
+        hrest, hpre', hs', hinv'⟩
     | strdef n v =>
-      obtain ⟨fuel, rfl⟩ : ∃ k, fuel = k + 1 := ⟨fuel - 1, by omega⟩
-      have hlen := renderCmd_length_pos (c := .strdef n v) (ls.headD {}) (by intro t; simp)
       obtain ⟨T, hT⟩ : ∃ T, renderCmd (.strdef n v) (ls.headD {}) = '@' :: T := ⟨_, rfl⟩
-      rw [hT, List.cons_append] at h
-      rw [parseLoop_at fuel s pre _ h hpre]
-      obtain ⟨ln1, h1⟩ := parseCommand_strdef m keys n v (ls.headD {})
-        { s with rest := T ++ render cs ls.tail, ln := s.ln + countNl (pre ++ ['@']) } (render cs ls.tail)
+      rw [hT, List.cons_append, List.cons_append] at h
+      simp only [List.append_assoc] at h
+      obtain ⟨ln1, h1⟩ := parseCommand_strdefD m n v (ls.headD {})
+        { s with rest := T ++ (render cs ls.tail ++ x), ln := s.ln + countNl (pre ++ ['@']) } (render cs ls.tail ++ x)
         (by rw [hT]; rfl) hok hinv.mac
-      rw [h1]
-      simp only [processCmd_string]
       have hwc : wsOk (ls.headD {}).afterClose = true := by
-        simp only [cmdOk, Bool.and_eq_true] at hok; exact hok.2
-      refine ih ls.tail fuel _ (ls.headD {}).afterClose _ D keys rfl (allWs_atFree (allWs_of_wsOk hwc)) hwf'
-        ⟨?_, ⟨hinv.proc.wanted, hinv.proc.cit, hinv.proc.roles⟩, hinv.entries, hinv.preamble, hinv.errs, hinv.keys⟩
-        (by simp only [List.length_append] at hfuel; omega)
-      exact macRef_set hinv.mac (lower_applyMask n _) (expand m v)
+        simp only [cmdOkD, Bool.and_eq_true] at hok; exact hok.2
+      simp only [writtenCmd, stepMacros, stepDenotD, cmdReports, stepKeys, List.nil_append] at hstrict ⊢
+      obtain ⟨s', m', keys', pre', k, hk, hle, hrest, hpre', hs', hinv'⟩ :=
+        hround _ (ls.headD {}).afterClose _ D keys R _ 1
+          (fun fuel => parseLoop_round_ok fuel s pre _ h hpre h1 (processCmd_string _)) hwf'
+          rfl (allWs_atFree (allWs_of_wsOk hwc)) rfl
+          ⟨macRef_set hinv.mac (lower_applyMask n _) (expand m v),
+            ⟨hinv.proc.wanted, hinv.proc.cit, hinv.proc.roles⟩, hinv.entries, hinv.preamble, hinv.errs, hinv.keys⟩
+          hstrict rfl (by omega)
+      exact ⟨s', m', keys', pre', k, hk, by rw [hT]; simp only [List.length_append, List.length_cons]; omega,
+        hrest, hpre', hs', hinv'⟩
     | entry ty key fs =>
-      obtain ⟨fuel, rfl⟩ : ∃ k, fuel = k + 1 := ⟨fuel - 1, by omega⟩
-      have hlen := renderCmd_length_pos (c := .entry ty key fs) (ls.headD {}) (by intro t; simp)
       obtain ⟨T, hT⟩ : ∃ T, renderCmd (.entry ty key fs) (ls.headD {}) = '@' :: T := ⟨_, rfl⟩
-      rw [hT, List.cons_append] at h
-      rw [parseLoop_at fuel s pre _ h hpre]
-      obtain ⟨ln1, fn, cv, h1⟩ := parseCommand_entry m keys ty key fs (ls.headD {})
-        { s with rest := T ++ render cs ls.tail, ln := s.ln + countNl (pre ++ ['@']) } (render cs ls.tail)
+      rw [hT, List.cons_append, List.cons_append] at h
+      simp only [List.append_assoc] at h
+      obtain ⟨ln1, fn, cv, h1⟩ := parseCommand_entryD m ty key fs (ls.headD {})
+        { s with rest := T ++ (render cs ls.tail ++ x), ln := s.ln + countNl (pre ++ ['@']) } (render cs ls.tail ++ x)
         (by rw [hT]; rfl) hok hinv.mac hinv.proc.wanted
-      rw [h1]
       have hok' := hok
-      simp only [cmdOk, Bool.and_eq_true] at hok'
-      obtain ⟨⟨⟨⟨⟨⟨⟨⟨⟨⟨_, _⟩, _⟩, hnew⟩, hfs⟩, _⟩, _⟩, _⟩, _⟩, _⟩, hwc⟩ := hok'
-      have hany : D.entries.any (fun e => lower e.key = lower key) = false := by
-        rw [List.any_eq_false]
-        intro e he hek
-        have := hinv.keys e he
-        simp only [decide_eq_true_eq] at hek
-        rw [hek] at this
-        simp only [Bool.not_eq_true', List.contains_eq_mem, decide_eq_false_iff_not] at hnew
-        exact hnew this
-      have hproc := processCmd_entry m (applyMask ty (ls.headD {}).mask) key (writtenFields fs (ls.headD {}).fields)
-        { s with rest := (ls.headD {}).afterClose ++ render cs ls.tail, ln := ln1, curKey := some key,
-                 curFields := parsedFields m fs (ls.headD {}).fields, curFieldName := fn, curValue := cv }
-        ⟨hinv.proc.wanted, hinv.proc.cit, hinv.proc.roles⟩ (by rw [← hany, ← hinv.entries])
-        (procOk_of_fieldsOk m fs _ _ hfs)
-      have hproc' : processCmd (Cmd.entry (applyMask ty (ls.headD {}).mask) (some key) (parsedFields m fs (ls.headD {}).fields)) _ = _ := hproc
-      simp only [hproc']
-      refine ih ls.tail fuel _ (ls.headD {}).afterClose m _ (stepKeys keys (.entry ty key fs)) rfl
-        (allWs_atFree (allWs_of_wsOk hwc)) hwf'
-        ⟨hinv.mac, ⟨hinv.proc.wanted, hinv.proc.cit, hinv.proc.roles⟩, ?_, ?_, hinv.errs, ?_⟩
-        (by simp only [List.length_append] at hfuel; omega)
-      · simp only [writtenCmd, stepDenot, hany, Bool.false_eq_true, if_false, hinv.entries]
-      · simp only [writtenCmd, stepDenot, hany, Bool.false_eq_true, if_false, hinv.preamble]
-      · simp only [writtenCmd, stepDenot, hany, Bool.false_eq_true, if_false, stepKeys]
-        intro e he
-        rcases List.mem_append.1 he with he | he
-        · exact List.mem_cons_of_mem _ (hinv.keys e he)
-        · simp only [List.mem_singleton] at he
-          rw [he, denoteEntry_key]; exact List.mem_cons_self
+      simp only [cmdOkD, Bool.and_eq_true] at hok'
+      obtain ⟨⟨⟨⟨⟨⟨⟨⟨⟨⟨_, _⟩, _⟩, hfs⟩, _⟩, _⟩, _⟩, _⟩, _⟩, hwc⟩, _⟩ := hok'
+      simp only [writtenCmd, stepMacros, stepKeys] at hstrict ⊢
+      -- the state after the command has been parsed
+      obtain ⟨s1, hs1, h1⟩ : ∃ s1, s1 = _ ∧ parseCommand _ = .ok _ s1 := ⟨_, rfl, h1⟩
+      have hs1db : s1.db = s.db := by rw [hs1]
+      have hs1errs : s1.errs = s.errs := by rw [hs1]
+      have hs1strict : s1.strict = s.strict := by rw [hs1]
+      have hs1rest : s1.rest = (ls.headD {}).afterClose ++ (render cs ls.tail ++ x) := by rw [hs1]
+      have hs1mac : s1.macros = s.macros := by rw [hs1]
+      have hs1roles : s1.roles = s.roles := by rw [hs1]
+      have hs1proc : ProcInv s1 :=
+        ⟨by rw [hs1db]; exact hinv.proc.wanted, by rw [hs1db]; exact hinv.proc.cit, by rw [hs1roles]; exact hinv.proc.roles⟩
+      have hany : s1.db.entries.any (fun e => keyFold e.key = keyFold key) = keys.contains (keyFold key) := by
+        rw [hs1db, hinv.entries]; exact hinv.any_eq key
+      have hstrict1 : s1.strict = true → cmdReports keys (.entry (applyMask ty (ls.headD {}).mask) key
+          (writtenFields fs (ls.headD {}).fields)) = [] := by
+        intro hst; rw [hs1strict] at hst
+        exact (List.append_eq_nil_iff.1 (hstrict hst)).1
+      have hproc := processCmd_entryD m (applyMask ty (ls.headD {}).mask) key (writtenFields fs (ls.headD {}).fields) s1
+        hs1proc (procOkD_of_fieldsOkD m fs _ hfs) _ (by simp only [cmdReports, hany]) hstrict1
+      -- the state after the command has been processed
+      obtain ⟨s2, hs2, hproc⟩ : ∃ s2, s2 = _ ∧ processCmd _ s1 = .ok () s2 := ⟨_, rfl, hproc⟩
+      have hs2rest : s2.rest = s1.rest := by rw [hs2]
+      have hs2strict : s2.strict = s1.strict := by rw [hs2]
+      have hs2mac : s2.macros = s1.macros := by rw [hs2]
+      have hs2roles : s2.roles = s1.roles := by rw [hs2]
+      have hs2errs : s2.errs = s1.errs ++ cmdReports keys (.entry (applyMask ty (ls.headD {}).mask) key
+          (writtenFields fs (ls.headD {}).fields)) := by rw [hs2]
+      have hs2db : s2.db = (if s1.db.entries.any (fun e => keyFold e.key = keyFold key) then s1.db
+          else { s1.db with entries := s1.db.entries ++ [denoteEntryD m (applyMask ty (ls.headD {}).mask) key
+            (writtenFields fs (ls.headD {}).fields)] }) := by rw [hs2]
+      have hDany := hinv.any_eq key
+      have hs2wanted : s2.db.wanted = none := by
+        rw [hs2db]; split
+        · exact hs1proc.wanted
+        · exact hs1proc.wanted
+      have hs2cit : s2.db.citations = CISet.empty := by
+        rw [hs2db]; split
+        · exact hs1proc.cit
+        · exact hs1proc.cit
+      have hs2pre : s2.db.preamble = (stepDenotD m D (.entry (applyMask ty (ls.headD {}).mask) key
+          (writtenFields fs (ls.headD {}).fields))).preamble := by
+        rw [hs2db, hany]
+        simp only [stepDenotD, hDany]
+        split
+        · rw [hs1db, hinv.preamble]
+        · simp only [hs1db, hinv.preamble]
+      have hs2ent : s2.db.entries = (stepDenotD m D (.entry (applyMask ty (ls.headD {}).mask) key
+          (writtenFields fs (ls.headD {}).fields))).entries := by
+        rw [hs2db, hany]
+        simp only [stepDenotD, hDany]
+        split
+        · rw [hs1db, hinv.entries]
+        · simp only [hs1db, hinv.entries]
+      have hkeys2 : ∀ k, k ∈ keyFold key :: keys ↔ ∃ e ∈ (stepDenotD m D (.entry (applyMask ty (ls.headD {}).mask) key
+          (writtenFields fs (ls.headD {}).fields))).entries, keyFold e.key = k := by
+        intro k
+        simp only [stepDenotD]
+        by_cases hdup : D.entries.any (fun e => keyFold e.key = keyFold key) = true
+        · rw [if_pos hdup, List.mem_cons, hinv.keys k]
+          refine ⟨fun hk => ?_, Or.inr⟩
+          rcases hk with rfl | hk
+          · simpa using hdup
+          · exact hk
+        · rw [if_neg hdup, List.mem_cons, hinv.keys k]
+          simp only [List.mem_append, List.mem_singleton]
+          constructor
+          · rintro (rfl | ⟨e, he, hek⟩)
+            · exact ⟨_, Or.inr rfl, by rw [denoteEntryD_key]⟩
+            · exact ⟨e, Or.inl he, hek⟩
+          · rintro ⟨e, he | rfl, hek⟩
+            · exact Or.inr ⟨e, he, hek⟩
+            · rw [denoteEntryD_key] at hek; exact Or.inl hek.symm
+      obtain ⟨s', m', keys', pre', k, hk, hle, hrest, hpre', hs', hinv'⟩ :=
+        hround s2 (ls.headD {}).afterClose m
+          (stepDenotD m D (.entry (applyMask ty (ls.headD {}).mask) key (writtenFields fs (ls.headD {}).fields)))
+          (keyFold key :: keys)
+          (R ++ cmdReports keys (.entry (applyMask ty (ls.headD {}).mask) key (writtenFields fs (ls.headD {}).fields)))
+          (R ++ (cmdReports keys (.entry (applyMask ty (ls.headD {}).mask) key (writtenFields fs (ls.headD {}).fields)) ++
+            reportsFrom (keyFold key :: keys) (written cs ls.tail))) 1
+          (fun fuel => parseLoop_round_ok fuel s pre _ h hpre h1 hproc) hwf'
+          (by rw [hs2rest, hs1rest]) (allWs_atFree (allWs_of_wsOk hwc)) (by rw [hs2strict, hs1strict])
+          ⟨by rw [hs2mac, hs1mac]; exact hinv.mac, ⟨hs2wanted, hs2cit, by rw [hs2roles]; exact hs1proc.roles⟩,
+            hs2ent, hs2pre, by rw [hs2errs, hs1errs, hinv.errs], hkeys2⟩
+          (fun hst => (List.append_eq_nil_iff.1 (hstrict hst)).2) (List.append_assoc _ _ _) (by omega)
+      exact ⟨s', m', keys', pre', k, hk, by rw [hT]; simp only [List.length_append, List.length_cons]; omega,
+        hrest, hpre', hs', hinv'⟩
 
+/-- the same with fuel: the rest of the run is the run from the state in front of `x` -/
+theorem parseLoop_docD_fuel (cs : ADoc) (ls : Layout) (fuel : Nat) (s : St) (pre x : Str) (m : Macros) (D : Denot)
+    (keys : List Str) (R : List Err)
+    (h : s.rest = pre ++ (render cs ls ++ x)) (hpre : ∀ c ∈ pre, c ≠ '@') (hwf : wfFromD m cs ls = true)
+    (hinv : LoopInvD s m D keys R) (hstrict : s.strict = true → reportsFrom keys (written cs ls) = [])
+    (hfuel : (render cs ls ++ x).length < fuel) :
+    ∃ s' m' keys' pre' fuel', parseLoop fuel s = parseLoop fuel' s' ∧ x.length < fuel' ∧
+      s'.rest = pre' ++ x ∧ (∀ c ∈ pre', c ≠ '@') ∧ s'.strict = s.strict ∧
+      LoopInvD s' m' (denoteFromD m D (written cs ls)) keys' (R ++ reportsFrom keys (written cs ls)) := by
+  obtain ⟨s', m', keys', pre', k, hk, hle, hrest, hpre', hs', hinv'⟩ :=
+    parseLoop_docD cs ls s pre x m D keys R h hpre hwf hinv hstrict
+  simp only [List.length_append] at hfuel
+  refine ⟨s', m', keys', pre', fuel - k, ?_, by omega, hrest, hpre', hs', hinv'⟩
+  rw [← hk (fuel - k), show k + (fuel - k) = fuel by omega]
+
+/-- Stage 4, whole text: the loop ends without raising anything -/
+theorem parseLoop_docD_end (cs : ADoc) (ls : Layout) (fuel : Nat) (s : St) (pre : Str) (m : Macros) (D : Denot)
+    (keys : List Str) (R : List Err)
+    (h : s.rest = pre ++ render cs ls) (hpre : ∀ c ∈ pre, c ≠ '@') (hwf : wfFromD m cs ls = true)
+    (hinv : LoopInvD s m D keys R) (hstrict : s.strict = true → reportsFrom keys (written cs ls) = [])
+    (hfuel : (render cs ls).length < fuel) :
+    ∃ s' m' keys', parseLoop fuel s = (s', none) ∧ s'.strict = s.strict ∧
+      LoopInvD s' m' (denoteFromD m D (written cs ls)) keys' (R ++ reportsFrom keys (written cs ls)) := by
+  obtain ⟨s', m', keys', pre', fuel', hk, hf', hrest, hpre', hs', hinv'⟩ :=
+    parseLoop_docD_fuel cs ls fuel s pre [] m D keys R (by simpa using h) hpre hwf hinv hstrict (by simpa using hfuel)
+  obtain ⟨fuel', rfl⟩ : ∃ k, fuel' = k + 1 := ⟨fuel' - 1, by simp at hf'; omega⟩
+  refine ⟨s', m', keys', ?_, hs', hinv'⟩
+  rw [hk, parseLoop_unfold, hrest, List.append_nil, skipToChar_none (AtFree.skip hpre')]
 
 theorem macRef_init : MacRef (CIDict.ofPairs Gen.monthMacros) initMacros := by
   intro k
@@ -1385,15 +1665,150 @@ theorem macRef_init : MacRef (CIDict.ofPairs Gen.monthMacros) initMacros := by
   have : dofPairs Gen.monthMacros = Gen.monthMacros := by decide
   rw [this]
 
+theorem loopInvD_init (text : Str) (strict : Bool) :
+    LoopInvD { rest := text, macros := CIDict.ofPairs Gen.monthMacros, db := {}, strict := strict,
+               roles := Gen.personRoles } initMacros {} [] [] :=
+  ⟨macRef_init, ⟨rfl, rfl, rfl⟩, rfl, rfl, rfl, by simp⟩
+
+/-- Stage 4, documents that may repeat field names and keys: reading the rendering gives the
+denotation `denoteD` of the document as written and reports exactly `reports`; nothing is raised
+(continue mode, or strict mode when there is nothing to report). -/
+theorem parseBib_faithfulD (d : ADoc) (L : Layout) (strict : Bool) (h : WFD d L)
+    (hstrict : strict = true → reports (written d L) = []) :
+    ∃ s' m' keys', parseBib (render d L) strict none = (s', none) ∧
+      LoopInvD s' m' (denoteD (written d L)) keys' (reports (written d L)) := by
+  unfold parseBib
+  obtain ⟨s', m', keys', h1, _, hinv⟩ := parseLoop_docD_end d L ((render d L).length + 1) _ [] initMacros {} [] [] rfl
+    (by simp) h (loopInvD_init _ strict) hstrict (by omega)
+  exact ⟨s', m', keys', h1, by simpa [reports, denoteD] using hinv⟩
+
+/-! ### `WF` = `WFD` + no repetitions; without repetitions `denoteD = denote` and `reports = []` -/
+
+theorem freshNames_of_fieldsOk (m : Macros) (fs : List (Str × Value)) :
+    ∀ (ls : List FieldLayout) (seen : List Str), fieldsOk m seen fs ls = true →
+      freshNames seen fs = true ∧ freshNames seen (writtenFields fs ls) = true := by
+  induction fs with
+  | nil => intro _ _ _; exact ⟨rfl, rfl⟩
+  | cons f fs ih =>
+    intro ls seen h
+    rw [fieldsOk] at h
+    simp only [Bool.and_eq_true] at h
+    obtain ⟨⟨⟨⟨⟨⟨⟨⟨_, hseen⟩, _⟩, _⟩, _⟩, _⟩, _⟩, _⟩, hrest⟩ := h
+    have := ih ls.tail _ hrest
+    simp only [writtenFields, freshNames, lower_applyMask, Bool.and_eq_true]
+    exact ⟨⟨hseen, this.1⟩, ⟨hseen, this.2⟩⟩
+
+theorem noDups_of_wfFrom (d : ADoc) : ∀ (L : Layout) (m : Macros) (keys : List Str),
+    wfFrom m keys d L = true → noDups keys d = true ∧ noDups keys (written d L) = true := by
+  induction d with
+  | nil => intro _ _ _ _; exact ⟨rfl, rfl⟩
+  | cons c cs ih =>
+    intro L m keys h
+    rw [wfFrom] at h
+    simp only [Bool.and_eq_true] at h
+    obtain ⟨hok, hwf'⟩ := h
+    have := ih L.tail _ _ hwf'
+    cases c with
+    | entry ty key fs =>
+      simp only [cmdOk, Bool.and_eq_true] at hok
+      obtain ⟨⟨⟨⟨⟨⟨⟨⟨⟨⟨⟨_, _⟩, _⟩, hnew⟩, hfs⟩, _⟩, _⟩, _⟩, _⟩, _⟩, _⟩, _⟩ := hok
+      have hf := freshNames_of_fieldsOk m fs _ _ hfs
+      simp only [written, writtenCmd, noDups, Bool.and_eq_true]
+      exact ⟨⟨⟨hnew, hf.1⟩, this.1⟩, ⟨⟨hnew, hf.2⟩, this.2⟩⟩
+    | strdef n v => exact this
+    | preamble v => exact this
+    | comment t => exact this
+    | junk t => exact this
+
+theorem fieldsOk_of_fieldsOkD (m : Macros) (fs : List (Str × Value)) :
+    ∀ (ls : List FieldLayout) (seen : List Str), fieldsOkD m fs ls = true → freshNames seen fs = true →
+      fieldsOk m seen fs ls = true := by
+  induction fs with
+  | nil => intro _ _ _ _; rfl
+  | cons f fs ih =>
+    intro ls seen h hf
+    rw [fieldsOkD] at h
+    simp only [Bool.and_eq_true] at h
+    obtain ⟨⟨⟨⟨⟨⟨⟨hn, hv⟩, hw1⟩, hw2⟩, hw3⟩, hw4⟩, hp⟩, hrest⟩ := h
+    simp only [freshNames, Bool.and_eq_true] at hf
+    rw [fieldsOk]
+    simp only [Bool.and_eq_true]
+    exact ⟨⟨⟨⟨⟨⟨⟨⟨hn, hf.1⟩, hv⟩, hw1⟩, hw2⟩, hw3⟩, hw4⟩, hp⟩, ih _ _ hrest hf.2⟩
+
+theorem wfFrom_of_wfFromD (d : ADoc) : ∀ (L : Layout) (m : Macros) (keys : List Str),
+    wfFromD m d L = true → noDups keys d = true → wfFrom m keys d L = true := by
+  induction d with
+  | nil => intro _ _ _ _ _; rfl
+  | cons c cs ih =>
+    intro L m keys h hn
+    rw [wfFromD] at h
+    simp only [Bool.and_eq_true] at h
+    obtain ⟨hok, hwf'⟩ := h
+    rw [wfFrom]
+    simp only [Bool.and_eq_true]
+    cases c with
+    | entry ty key fs =>
+      simp only [noDups, Bool.and_eq_true] at hn
+      refine ⟨?_, ih _ _ _ hwf' hn.2⟩
+      simp only [cmdOkD, Bool.and_eq_true] at hok
+      obtain ⟨⟨⟨⟨⟨⟨⟨⟨⟨⟨hty, hres⟩, hkey⟩, hfs⟩, hw1⟩, hw2⟩, hw3⟩, hw4⟩, hw5⟩, hw6⟩, hb⟩ := hok
+      simp only [cmdOk, Bool.and_eq_true]
+      exact ⟨⟨⟨⟨⟨⟨⟨⟨⟨⟨⟨hty, hres⟩, hkey⟩, hn.1.1⟩, fieldsOk_of_fieldsOkD m fs _ _ hfs hn.1.2⟩, hw1⟩, hw2⟩, hw3⟩, hw4⟩,
+        hw5⟩, hw6⟩, hb⟩
+    | strdef n v => exact ⟨hok, ih _ _ _ hwf' hn⟩
+    | preamble v => exact ⟨hok, ih _ _ _ hwf' hn⟩
+    | comment t => exact ⟨hok, ih _ _ _ hwf' hn⟩
+    | junk t => exact ⟨hok, ih _ _ _ hwf' hn⟩
+
+/-- `WF` is `WFD` together with "no key and no field name of an entry is repeated" -/
+theorem WF_iff (d : ADoc) (L : Layout) : WF d L ↔ WFD d L ∧ noDups [] d = true :=
+  ⟨fun h => ⟨wfFromD_of_wfFrom d L _ _ h, (noDups_of_wfFrom d L _ _ h).1⟩,
+   fun h => wfFrom_of_wfFromD d L _ _ h.1 h.2⟩
+
+theorem denoteEntryD_fresh (m : Macros) (ty key : Str) (fs : List (Str × Value)) (h : freshNames [] fs = true) :
+    denoteEntryD m ty key fs = denoteEntry m ty key fs := by
+  rw [denoteEntryD_eq, firstFields_fresh fs [] h]
+
+/-- without repetitions nothing is reported and `denoteD` is `denote` -/
+theorem noDups_spec (d : ADoc) : ∀ (keys : List Str), noDups keys d = true →
+    reportsFrom keys d = [] ∧ ∀ (m : Macros) (D : Denot), denoteFromD m D d = denoteFrom m D d := by
+  induction d with
+  | nil => intro _ _; exact ⟨rfl, fun _ _ => rfl⟩
+  | cons c cs ih =>
+    intro keys h
+    cases c with
+    | entry ty key fs =>
+      simp only [noDups, Bool.and_eq_true, Bool.not_eq_true'] at h
+      obtain ⟨⟨hnew, hf⟩, hrest⟩ := h
+      have := ih _ hrest
+      refine ⟨?_, fun m D => ?_⟩
+      · simp only [reportsFrom, cmdReports, fieldReports_fresh key fs [] hf, hnew, Bool.false_eq_true, if_false,
+          List.append_nil, this.1]
+      · simp only [denoteFromD, denoteFrom, stepDenotD, stepDenot, denoteEntryD_fresh m ty key fs hf, this.2]
+    | strdef n v => exact ⟨(ih _ h).1, fun m D => (ih _ h).2 _ _⟩
+    | preamble v => exact ⟨(ih _ h).1, fun m D => (ih _ h).2 _ _⟩
+    | comment t => exact ⟨(ih _ h).1, fun m D => (ih _ h).2 _ _⟩
+    | junk t => exact ⟨(ih _ h).1, fun m D => (ih _ h).2 _ _⟩
+
+/-- (i) a `WF` document is `WFD`, has nothing to report, and `denoteD` is `denote` on it (as
+written and as it is) -/
+theorem WF_spec (d : ADoc) (L : Layout) (h : WF d L) :
+    WFD d L ∧ reports (written d L) = [] ∧ denoteD (written d L) = denote (written d L) ∧
+    reports d = [] ∧ denoteD d = denote d := by
+  have hn := noDups_of_wfFrom d L _ _ h
+  have h1 := noDups_spec d [] hn.1
+  have h2 := noDups_spec (written d L) [] hn.2
+  exact ⟨wfFromD_of_wfFrom d L _ _ h, h2.1, h2.2 _ _, h1.1, h1.2 _ _⟩
+
 /-- Stage 4: reading the rendering of a well-formed document gives the denotation of the document
 as written, reports nothing and raises nothing (in either error mode). -/
 theorem parseBib_faithful (d : ADoc) (L : Layout) (strict : Bool) (h : WF d L) :
     ∃ s' m' keys', parseBib (render d L) strict none = (s', none) ∧
       LoopInv s' m' (denote (written d L)) keys' := by
-  unfold parseBib
-  exact parseLoop_doc d L _ _ [] initMacros {} [] rfl (by simp) h
-    ⟨macRef_init, ⟨rfl, rfl, rfl⟩, rfl, rfl, rfl, by simp⟩ (by omega)
-
+  obtain ⟨hD, hr, hden, _, _⟩ := WF_spec d L h
+  obtain ⟨s', m', keys', h1, hinv⟩ := parseBib_faithfulD d L strict hD (fun _ => hr)
+  rw [hr, hden] at hinv
+  exact ⟨s', m', keys', h1, hinv.toLoopInv⟩
 
 /-! ## layout independence at the level of the denotation -/
 
@@ -1404,9 +1819,9 @@ theorem stepMacros_writtenCmd (m : Macros) (c : ACmd) (l : CmdLayout) :
 theorem ciEntry_key (e : Entry) : (ciEntry e).key = e.key := rfl
 
 theorem any_key_ci {es' es : List Entry} (h : es'.map ciEntry = es.map ciEntry) (key : Str) :
-    es'.any (fun e => lower e.key = lower key) = es.any (fun e => lower e.key = lower key) := by
-  have : ∀ l : List Entry, l.any (fun e => lower e.key = lower key) =
-      (l.map ciEntry).any (fun e => lower e.key = lower key) := by
+    es'.any (fun e => keyFold e.key = keyFold key) = es.any (fun e => keyFold e.key = keyFold key) := by
+  have : ∀ l : List Entry, l.any (fun e => keyFold e.key = keyFold key) =
+      (l.map ciEntry).any (fun e => keyFold e.key = keyFold key) := by
     intro l; rw [List.any_map]; rfl
   rw [this es', this es, h]
 
@@ -1547,7 +1962,7 @@ theorem denoteEntry_eq_entryOf (m : Macros) (ty key : Str) (fs : List (Str × Va
 written, in order -/
 theorem denoteFrom_entries (d : ADoc) :
     ∀ (L : Layout) (m : Macros) (D : Denot) (keys : List Str), wfFrom m keys d L = true →
-      (∀ e ∈ D.entries, lower e.key ∈ keys) →
+      (∀ e ∈ D.entries, keyFold e.key ∈ keys) →
       (denoteFrom m D (written d L)).entries = D.entries ++ (entriesWith m (written d L)).map entryOf := by
   induction d with
   | nil => intro L m D keys _ _; simp [written, denoteFrom, entriesWith]
@@ -1560,8 +1975,8 @@ theorem denoteFrom_entries (d : ADoc) :
     cases c with
     | entry ty key fs =>
       simp only [cmdOk, Bool.and_eq_true] at hok
-      have hnew := hok.1.1.1.1.1.1.1.2
-      have hany : D.entries.any (fun e => lower e.key = lower key) = false := by
+      have hnew := hok.1.1.1.1.1.1.1.1.2
+      have hany : D.entries.any (fun e => keyFold e.key = keyFold key) = false := by
         rw [List.any_eq_false]
         intro e he hek
         have := hk e he
@@ -1591,6 +2006,49 @@ theorem denote_entries (d : ADoc) (L : Layout) (h : WF d L) :
   simpa [denote] using this
 
 
+/-- the closed form when keys and field names may repeat: the first entry command of every key,
+each with the first field of every name -/
+theorem denoteFromD_entries (d : ADoc) :
+    ∀ (m : Macros) (D : Denot) (keys : List Str), (∀ k, k ∈ keys ↔ ∃ e ∈ D.entries, keyFold e.key = k) →
+      (denoteFromD m D d).entries = D.entries ++ (firstEntries keys (entriesWith m d)).map entryOfD := by
+  induction d with
+  | nil => intro m D keys _; simp [denoteFromD, entriesWith, firstEntries]
+  | cons c cs ih =>
+    intro m D keys hk
+    cases c with
+    | entry ty key fs =>
+      have hany : D.entries.any (fun e => keyFold e.key = keyFold key) = keys.contains (keyFold key) := by
+        rw [Bool.eq_iff_iff]
+        simp only [List.any_eq_true, decide_eq_true_eq, List.contains_eq_mem]
+        exact (hk _).symm
+      simp only [denoteFromD, stepDenotD, stepMacros, entriesWith, firstEntries, hany]
+      by_cases hdup : keys.contains (keyFold key) = true
+      · rw [if_pos hdup, if_pos hdup]
+        exact ih m D keys hk
+      · rw [if_neg hdup, if_neg hdup]
+        rw [ih m _ (keyFold key :: keys)]
+        · simp only [List.map_cons, List.append_assoc, List.cons_append, List.nil_append, entryOfD,
+            denoteEntryD_eq, denoteEntry_eq_entryOf]
+        · intro k
+          rw [List.mem_cons, hk k]
+          simp only [List.mem_append, List.mem_singleton]
+          constructor
+          · rintro (rfl | ⟨e, he, hek⟩)
+            · exact ⟨_, Or.inr rfl, by rw [denoteEntryD_key]⟩
+            · exact ⟨e, Or.inl he, hek⟩
+          · rintro ⟨e, he | rfl, hek⟩
+            · exact Or.inr ⟨e, he, hek⟩
+            · rw [denoteEntryD_key] at hek; exact Or.inl hek.symm
+    | strdef n v => exact ih _ D keys hk
+    | preamble v => exact ih _ _ keys hk
+    | comment t => exact ih _ D keys hk
+    | junk t => exact ih _ D keys hk
+
+theorem denoteD_entries (d : ADoc) :
+    (denoteD d).entries = (firstEntries [] (entriesWith initMacros d)).map entryOfD := by
+  have := denoteFromD_entries d initMacros {} [] (by simp)
+  simpa [denoteD] using this
+
 theorem applyMask_nil (s : Str) : applyMask s [] = s := by cases s <;> rfl
 
 theorem writtenFields_plain (fs : List (Str × Value)) : ∀ ls : List FieldLayout,
@@ -1601,6 +2059,19 @@ theorem writtenFields_plain (fs : List (Str × Value)) : ∀ ls : List FieldLayo
     intro ls h
     simp only [plainFieldIds, Bool.and_eq_true, decide_eq_true_eq] at h
     simp only [writtenFields, h.1, applyMask_nil, ih ls.tail h.2]
+
+/-- `written` looks at the case masks only: not, e.g., at the trailing-comma choice -/
+theorem written_noTrailing (d : ADoc) : ∀ L : Layout,
+    written d (L.map (fun l => { l with trailing := false, afterTrailing := [] })) = written d L := by
+  induction d with
+  | nil => intro L; rfl
+  | cons c cs ih =>
+    intro L
+    cases L with
+    | nil => rfl
+    | cons l ls =>
+      simp only [List.map_cons, written, List.headD_cons, List.tail_cons, ih ls]
+      cases c <;> rfl
 
 /-- without case masks on entry types and field names the document is written as it is -/
 theorem written_plain (d : ADoc) : ∀ L : Layout, plainIds d L = true → written d L = d := by
@@ -1644,13 +2115,13 @@ theorem getItem_setItem_ci (d : CIDict Str) {n n' : Str} (h : lower n = lower n'
 theorem processFields_duplicate (key name : Str) (parts : List Str) (fs : List (Str × List Str)) (seen : List Str)
     (e : Entry) (s : St) (hs : s.strict = false) (hd : seen.contains (lower name) = true) :
     processFields key ((name, parts) :: fs) seen e s =
-      processFields key fs seen e { s with errs := s.errs ++ [⟨.duplicateField key name, none⟩] } := by
+      processFields key fs seen e (s.report ⟨.duplicateField key name, none⟩) := by
   simp only [processFields, hd, if_true, handleError, hs, Bool.false_eq_true, if_false]
 
 /-- an entry whose key equals an earlier one up to case is reported and dropped -/
 theorem addEntry_repeated (s : St) (key : Str) (e e0 : Entry) (hw : s.db.wanted = none) (hs : s.strict = false)
-    (h0 : e0 ∈ s.db.entries) (hk : lower e0.key = lower key) :
-    addEntry s key e = .ok () { s with errs := s.errs ++ [⟨.repeatedEntry key, none⟩] } := by
+    (h0 : e0 ∈ s.db.entries) (hk : keyFold e0.key = keyFold key) :
+    addEntry s key e = .ok () (s.report ⟨.repeatedEntry key, none⟩) := by
   have : hasEntry s.db key = true := by
     simp only [hasEntry, List.any_eq_true, decide_eq_true_eq]; exact ⟨e0, h0, hk⟩
   simp only [addEntry, wantEntry, hw, Bool.not_true, Bool.false_eq_true, if_false, this, if_true, handleError, hs]
